@@ -949,8 +949,8 @@ package rapid
 //@   ensures [C12,C18] result0 == v
 //@   panics invalidData: true
 //@   modifies drawn
-//@   at genGeom#0 assume uint64(witnessN(v)) == result + 1
-//@   at s.drawBits#0 assume result == v
+//@   at genGeom#0 witness [C12,C18] uint64(witnessN(v)) - 1
+//@   at s.drawBits#0 witness [C12,C18] v
 
 //@ func genUintNBiased@hole
 //@   given v (_ BitVec 64)
@@ -965,8 +965,8 @@ package rapid
 //@   ensures [C12,C18] result0 == v
 //@   panics invalidData: true
 //@   modifies drawn
-//@   at genGeom#0 assume uint64(witnessN(v)) == result + 1
-//@   at s.drawBits#0 assume result == v
+//@   at genGeom#0 witness [C12,C18] uint64(witnessN(v)) - 1
+//@   at s.drawBits#0 witness [C12,C18] v
 
 // ---------------------------------------------------------------------------------------------
 // C15: a Generator is an immutable specification after construction.
@@ -1047,4 +1047,4 @@ package rapid
 //@   ensures [C18] result == v
 //@   panics invalidData: true
 //@   modifies drawn, lastWord
-//@   at s.drawBits#0 assume result == v
+//@   at s.drawBits#0 witness [C18] v
